@@ -13,6 +13,7 @@ Clause(r) ==
     [] r.op = "union"     -> UnionClause(r.A, r.B, r.out)
     [] r.op = "flood"     -> FloodClause(r.A, r.P, r.out, r.A2)
     [] r.op = "uno"       -> UnionNoOverlapClause(r.A, r.B, r.out, r.A2, r.B2)
+    [] r.op = "raised" -> "transform-raised"
     [] OTHER              -> "unknown-record"
 Init == tid \in 1..Len(Traces) /\ l = 1
 Next == l <= Len(T) /\ l' = l + 1 /\ UNCHANGED tid
